@@ -403,7 +403,7 @@ impl Property for C03 {
         Meta {
             level: "fault_enumeration",
             rule: "each run is a seeded grammar-directed module (0-24 instructions over all 787 opcodes) pushed through 0-3 seeded faults of the byte medium (15% fault-free) and parsed by the real parser with a recording consumer; 1 run in 25 additionally enumerates every truncation offset of the post-fault bytes and every word-count / operand-drop / operand-extra variant of one instruction; abstract trace = (fault kinds, predicted outcome class, layout class of the rejected opcode, stream length); non-trivial = a fault fired or >= 3 instructions; distinct = distinct abstract traces among non-trivial runs",
-            lanes: "rendered message must agree with the error value; boundary ids; BOM / LF / invalid-UTF-8 string bytes; MAGIC as a fault value; rare giant features (sweeps disabled on them); opcode faults 0 / last+1 / +-1 around declared opcodes; surplus payload on operand-less instructions; zero padding behind the module; dense ids across 2^k boundaries; header dictionaries (generator tool ids, version 0.99); light sweep (1 run in 5): one surplus word and one missing last word on every instruction; every byte order of the magic number; SpecConstantOp naming special-kind opcodes",
+            lanes: "rendered message must agree with the error value; boundary ids; BOM / LF / invalid-UTF-8 string bytes; MAGIC as a fault value; rare giant features (sweeps disabled on them); opcode faults 0 / last+1 / +-1 around declared opcodes; surplus payload on operand-less instructions; zero padding behind the module; dense ids across 2^k boundaries; header dictionaries (generator tool ids, version 0.99); light sweep (1 run in 5): one surplus word and one missing last word on every instruction; every byte order of the magic number; SpecConstantOp naming special-kind opcodes; sparse-id lane (600..8000 type ids scattered over the 32-bit space, each consumed); type-aware literal specials; id-collision faults; ids defined twice; spec-op numbers written like a first word",
             triple_measure: "(fault kind, layout class of first malformed opcode, predicted outcome class)",
             item_measure: "opcodes delivered to the consumer and matched against the model (of 787)",
             assumptions: &[
